@@ -13,6 +13,8 @@ mod grid;
 mod json;
 mod lens;
 mod mini;
+#[cfg(feature = "auto")]
+mod mixed;
 mod ops;
 #[cfg(feature = "auto")]
 mod policy;
@@ -437,6 +439,30 @@ fn main() {
                 ("cut_reason", J::Null),
                 ("samples", J::Arr(st.samples.iter().map(|s| J::s(s)).collect())),
                 ("vacuity", J::obj(vec![("cases", J::n(st.cases as f64)), ("collect_calls", J::n(st.collects as f64)), ("max_tracing_passes_in_one_call", J::n(st.max_episodes as f64)), ("callbacks", J::n(st.callbacks as f64)), ("distinct_outcomes", J::n(st.distinct.len() as f64))])),
+                ("machinery_errors", J::Arr(vec![])),
+                ("found", J::Arr(found)),
+                ("lens_args", J::s(&std::env::args().skip(1).collect::<Vec<_>>().join(" "))),
+                ("wall_s", J::n(t0.elapsed().as_secs_f64())),
+            ]);
+            emit(&m, &out, vs.is_empty());
+        },
+        #[cfg(feature = "auto")]
+        "mixed" => {
+            let t0 = std::time::Instant::now();
+            let depth: usize = m.get("depth").map_or(5, |v| v.parse().expect("bad number"));
+            let (st, vs) = mixed::run(depth);
+            let found: Vec<J> = vs.iter().take(5).map(|v| J::obj(vec![("history", J::s("")), ("history_pretty", J::s(&v.msg)), ("epilogue", J::s("")), ("epilogue_pretty", J::s("")), ("violations", J::Arr(vec![viol_json(v)]))])).collect();
+            let out = J::obj(vec![
+                ("lens", J::s("mixed")),
+                ("build", J::s(&build_cfg_name())),
+                ("states", J::n(st.histories as f64)),
+                ("transitions", J::n(st.steps as f64)),
+                ("executions", J::n(st.histories as f64)),
+                ("max_depth_completed", J::n(depth as f64)),
+                ("fixpoint", J::Bool(false)),
+                ("cut_reason", J::s(&format!("depth bound {}", depth))),
+                ("samples", J::Arr(st.samples.iter().map(|s| J::s(s)).collect())),
+                ("vacuity", J::obj(vec![("class_pairs_x_auto", J::n(st.pairs as f64)), ("histories", J::n(st.histories as f64)), ("collections_started_by_a_creation", J::n(st.auto_collections as f64))])),
                 ("machinery_errors", J::Arr(vec![])),
                 ("found", J::Arr(found)),
                 ("lens_args", J::s(&std::env::args().skip(1).collect::<Vec<_>>().join(" "))),
